@@ -438,7 +438,9 @@ func (mr *msgReader) Read(p []byte) (n int, err error) {
 		// section 7.2.3.4. Skip to the end of the message.
 		err = mr.discard()
 	}
-	if errors.Is(err, io.EOF) || errors.Is(err, io.ErrUnexpectedEOF) && mr.fin && mr.flate {
+	// The message has only ended once the payload of its final frame has been
+	// consumed. An EOF before that comes from the transport and is an error.
+	if mr.fin && mr.payloadLength == 0 && (errors.Is(err, io.EOF) || errors.Is(err, io.ErrUnexpectedEOF) && mr.flate) {
 		mr.putFlateReader()
 		return n, io.EOF
 	}
